@@ -455,7 +455,7 @@ class ProducerWorld(ClientWorld):
 
     # ------------------------------------------------------------------ explorer protocol
     def finish(self, horizon):
-        if self.PROP == "C04" and not self.reacted:
+        if self.PROP == "C04" and not self.reacted and not getattr(self, "early_timeouts", 0):
             from twisted.python.failure import Failure
             for s in self.sends:
                 if s.fired and isinstance(s.result, Failure):
